@@ -305,6 +305,12 @@ class Loader:
             raise KeyError(f"{spec} is not a function")
         import copy
         node = copy.deepcopy(node)
+        # decorators that are functions of the repository itself (wrap_anomaly, check_ecc) change what a call returns:
+        # they are re-applied below, each as its own extracted body, in the order the source lists them
+        real_mod = importlib.import_module(mod)
+        repo_decos = [d.id for d in node.decorator_list if isinstance(d, ast.Name)
+                      and isinstance(getattr(real_mod, d.id, None), types.FunctionType)
+                      and getattr(real_mod, d.id).__module__.startswith("resonaate")]
         super_name = "__pyvc_super__" + qual.rsplit(".", 1)[0].replace(".", "_") if "." in qual else "__pyvc_super__"
         dr = _Dropper(super_name)
         node = dr.visit(node)
@@ -317,6 +323,10 @@ class Loader:
         ns = {}
         exec(code, g, ns)
         f = _code_wrapper(ns[node.name])
+        for dname in reversed(repo_decos):
+            dreal = getattr(real_mod, dname)
+            f = self.fn(f"{dreal.__module__}:{dreal.__qualname__}")(f)
+            dr.dropped.append(f"decorator-reapplied:{dname}")
         FUNCTIONS_USED[spec] = {
             "file": os.path.relpath(path, REPO_SRC), "sha256": sha, "lines": [node.lineno, node.end_lineno],
             "dropped": dr.dropped,
